@@ -1686,3 +1686,14 @@ Proof.
     transitivity (sumR (map (fun k => E e k p * Cop c i k) (seq 0 n)) * (nth i d 0 * / (nth i s 0 * nth i s 0))); [|ring].
     rewrite <- sumR_map_mul_l. reflexivity.
 Qed.
+
+Theorem F_wt_symmetric (c : @convolver ROps) noise K nfs objs (s : list R) eps a b :
+  let n := length nfs in
+  (0 < n)%nat -> frames_ok c n -> (forall i, (i < n)%nat -> nth i s 0 <> 0) ->
+  W_is_overlap c s (@wt_dense ROps noise K nfs) n -> (forall o, In o objs -> wf_obj c n o) ->
+  (a < tp objs)%nat -> (b < tp objs)%nat ->
+  mget (F_wt_gen c noise K nfs objs s eps) a b = mget (F_wt_gen c noise K nfs objs s eps) b a.
+Proof.
+  intros n Hn Hfr Hs HW Hwf Ha Hb. unfold n. rewrite !F_wt_eq_F_mapping by assumption.
+  apply F_mapping_symmetric; auto. intros o Ho. now destruct (Hwf o Ho) as (_ & H & _).
+Qed.
